@@ -107,6 +107,38 @@ def native_setter_witness(src: str, meta: dict):
     return None
 
 
+def py_native(run, args):
+    """Bounded native stand-in (never counted as proved) for the clauses no contract reaches here: the REAL generated classes
+    of corpus/pyo + vk + vkm + kw are executed in the overlay interpreter (NumPy from the offline wheelhouse): every field x
+    candidate values in range / at the boundary / out of range / wrong length (lists, ndarrays, bytes, bytearray, str incl.
+    multi-byte text) -> stored or ValueError with the object unchanged; union constructor and assignments leave exactly one
+    option; get_model/get_class against the source definition; to_builtin -> update_from_builtin -> serialize round trip."""
+    from contracts import py_leg
+    work = pathlib.Path(tempfile.mkdtemp(prefix="vk_c18n_"))
+    try:
+        types = []
+        for ns, lookup in (("pyo", []), ("vk", []), ("vkm", []), ("kw", [CORPUS / "kw2"])):
+            render.render_types("py", CORPUS / ns, work, {}, lookup=lookup)
+            for dep in lookup:  # the generated modules import their dependencies' packages: generate those too
+                render.render_types("py", dep, work, {}, lookup=[CORPUS / ns], support=False)
+            for t in pydsdl.read_namespace(str(CORPUS / ns), [str(p) for p in lookup], allow_unregulated_fixed_port_id=True):
+                types += [t.request_type, t.response_type] if isinstance(t, pydsdl.ServiceType) else [t]
+        try:
+            bad, n, err = py_leg.data_object_checks(sorted(types, key=str), work, 40 if args.tier != "thorough" else 400)
+        except Exception as ex:  # the stand-in must never turn into a verdict by crashing
+            bad, n, err = [], 0, f"{type(ex).__name__}: {ex}"
+        if err:
+            run.undecide(f"Python data-object stand-in: {err[:400]}")
+            return
+        run.add_bounded("native [py]: generated classes honour the data-object contract (CPython 3.12 + NumPy)",
+                        f"{len(types)} classes x every field x boundary/out-of-range/wrong-length candidates; union constructor/assignment sequences; get_model/get_class; builtin round trip on boundary + pseudo-random objects",
+                        n, not bad, "" if not bad else f"{bad[0][0]}: {str(bad[0][1]['input'])[:200]}: {bad[0][1]['why'][:300]}", [b[0] for b in bad])
+        for name, w in bad:
+            run.fail(report.Failure(name, "post", f"{str(w['input'])[:300]}: {w['why'][:500]}", {"witness": w}, True))
+    finally:
+        shutil.rmtree(work, ignore_errors=True)
+
+
 def main():
     args = parse_args(PROP)
     run = report.Run(PROP, "proof", "./check C18", args.tier)
@@ -211,6 +243,11 @@ def main():
                     run.fail(report.Failure(name, "post", f"{path.name}: _MODEL_ of {'.'.join(cpath)} is not the pydsdl model of {tn}: {detail[:200]}", {"detail": detail}, True))
     finally:
         shutil.rmtree(work, ignore_errors=True)
+    py_native(run, args)
+    # template-level obligation (E-FX on the Jinja AST): every ValueError exit of the data-object template is emitted for every
+    # type of its case, not only for the corpus types (a branch on a type parameter cannot be enumerated by a corpus)
+    from props import perprogram as PP
+    PP.template_error_guards(run, ("base.j2",), "py")
     run.notes["setters_under_contract"] = n_set
     run.notes["models_compared"] = n_model
     run.notes["setters_not_under_contract_by_field_type"] = skipped
